@@ -482,6 +482,7 @@ func (l *loopState) onStageComplete(
 		l.data[WorkflowStepsKey].(map[string]any)[stepID].(map[string]any)[*previousStage] = map[string]any{}
 		stored := l.serializedStageOutput(stepID, *previousStage, *previousStageOutputID, *previousStageOutput)
 		l.data[WorkflowStepsKey].(map[string]any)[stepID].(map[string]any)[*previousStage].(map[string]any)[*previousStageOutputID] = stored
+		verifhook.Emit("Stored", "run", l, "step", stepID, "prev", *previousStage, "out", *previousStageOutputID, "data", stored)
 	}
 	l.notifySteps()
 }
